@@ -22,7 +22,7 @@ MANIFEST = dict(
     engine='E1-history',
     technique='explicit-state exploration (exact state key, depth-bounded) of all interleavings of lexicon adds/removes and ILI-index loads on the real database, per ILI-file variant, reference model in lock-step',
     text='For each ILI-file variant (upper/lower-case header; columns ili / ili+status / ili+definition / all three; statuses active, provisional, deprecated and a non-standard one; empty definitions; short rows; id subsets incl. unused and not-yet-known ILIs; gzip-compressed) every history up to the depth bound over {add L1, add L2, add F, add F\', remove L1} is executed on the real SQLite file with the exact table dump as state key. After every transition the (id -> status, definition) content of the ilis table and the complete public-API transcript (Synset.ili, wn.ilis incl. status filters) must equal the reference model; an index load must leave every table other than ilis/ili_statuses byte-identical, keep rowids and metadata of existing ILIs, and loading the same file again must change nothing. Because the model value is independent of the order of loads, agreement in every state shows that loading before or after the lexicons gives the same statuses and definitions.',
-    note='Spurious ILIDefinitions on existing ILIs (whose first-writer-wins metadata is outside the property) are not generated.',
+    note='One lexicon carries a spurious ILIDefinition on an existing ILI; its metadata (first writer wins) is not part of the comparison of the ilis table.',
 )
 
 
@@ -40,7 +40,9 @@ def L2():
     P = 'l2-'
     return mk.resource([mk.lexicon('l2', '1', language='es', entries=[
         mk.entry(P + 'e1', 'dos', 'n', senses=[mk.sense(P + 's1', P + 'ss1'), mk.sense(P + 's2', P + 'ss2')])],
-        synsets=[mk.synset(P + 'ss1', 'n', 'i2'), mk.synset(P + 'ss2', 'n', 'i3'),
+        synsets=[mk.synset(P + 'ss1', 'n', 'i2'),
+                 # a regular ILI that nevertheless carries an ILIDefinition (allowed by the DTD)
+                 mk.synset(P + 'ss2', 'n', 'i3', ili_definition={'text': 'spurious three', 'meta': {'note': 'sp'}}),
                  mk.synset(P + 'ss3', 'n', '')])], '1.1')
 
 
